@@ -61,7 +61,7 @@ def build(tier, seed):
     obs = []
     def mkgen(k):
         def gen(unit):
-            fn = unit.by_name[unit.resolve_name('s_' + k.split('.')[0])]
+            fn = unit.by_name[unit.resolve_name('s_' + k.split('.')[0].replace('vars4', 'vars'))]
             ret, cname, cps = F.cparams(fn['sig'])
             t = F.PRELUDE_C + F.ext_models(unit) + ORDER + 'void h_%s(void)\n{\n' % k.replace('.', '_')
             args = []
@@ -106,7 +106,13 @@ def build(tier, seed):
                 for d in range(2):
                     for rev in (0, 1):
                         key = 'vars.n0%d%d.t0%d%d.%s' % (a, b, c, d, 'desc' if rev else 'asc')
-                        PATTERN[key] = dict(v_ni0=0, v_ni1=a, v_ni2=b, v_ti0=0, v_ti1=c, v_ti2=d, v_k=3, rev=rev); hk.append(key)
+                        PATTERN[key] = dict(v_ni0=0, v_ni1=a, v_ni2=b, v_ni3=0, v_ti0=0, v_ti1=c, v_ti2=d, v_ti3=0, v_k=3, rev=rev); hk.append(key)
+                        if tier == 'thorough' and rev == 0:      # thorough: a fourth declaration, every choice of its name and type
+                            for e in range(2):
+                                for f in range(2):
+                                    key4 = 'vars4.n0%d%d%d.t0%d%d%d' % (a, b, e, c, d, f)
+                                    PATTERN[key4] = dict(v_ni0=0, v_ni1=a, v_ni2=b, v_ni3=e, v_ti0=0, v_ti1=c, v_ti2=d, v_ti3=f, v_k=4, rev=0); hk.append(key4)
+                                    what[key4] = 'the history of 4 variable declarations with names (n0, n%d, n%d, n%d) and types (t0, t%d, t%d, t%d): clauses asserted after every step' % (a, b, e, c, d, f)
                         what[key] = 'the history of 3 variable declarations with names (n0, n%d, n%d) and types (t0, t%d, t%d), node addresses %s: clauses asserted after every step' % (a, b, c, d, 'descending' if rev else 'ascending')
     import itertools
     for perm in itertools.permutations(range(3)):
@@ -114,7 +120,7 @@ def build(tier, seed):
         PATTERN[key] = dict(v_a=perm[0], v_b=perm[1], v_c=perm[2], rev=0); hk.append(key)
         what[key] = 'one name declared with three distinct types entered in the order %s of their address ranks: all clauses and the complete selection-by-type matrix after every step' % (perm,)
     for k in hk + [x for x in fns if x not in ('vars', 'types3')]:
-        o = Ob('C07.history.' + k, u, None, 'h_' + k.replace('.', '_'), what[k], kind='K5', replay='C07', timeout=120, flags=['--unwind', '12'], objbits=12, bounded='histories of at most 3 declarations')
+        o = Ob('C07.history.' + k, u, None, 'h_' + k.replace('.', '_'), what[k], kind='K5', replay='C07', timeout=300, flags=['--unwind', '12'], objbits=12, bounded='histories of at most %d declarations' % (4 if tier == 'thorough' else 3))
         o.gen = mkgen(k); obs.append(o)
     for o in obs:
         if o.id == 'C07.history.position':
